@@ -7,16 +7,22 @@ From MSDM Require Import base.Num base.NumInst base.NumR base.Transfer model.MDP
 Import ListNotations.
 Local Open Scope R_scope.
 
-(* |x - y| <= tol + tol*|y| *)
-Definition within (tol x y : R) : Prop := Rabs (x - y) <= tol + tol * Rabs y.
+(* |x - y| <= tol*|y|  (relative; probabilities)   and   |x - y| <= tol + tol*|y|  (reward) *)
+Definition within (tol x y : R) : Prop := Rabs (x - y) <= tol * Rabs y.
+Definition within_abs (tol x y : R) : Prop := Rabs (x - y) <= tol + tol * Rabs y.
 
 Lemma close_R tol x y : @close R NumR tol x y = true <-> within tol x y.
-Proof. unfold close, niscloseb, within. rewrite !NumR.nabs_R. numR. apply Rleb_true. Qed.
+Proof. unfold close, within. rewrite !NumR.nabs_R. numR. apply Rleb_true. Qed.
+Lemma close_abs_R tol x y : @close_abs R NumR tol x y = true <-> within_abs tol x y.
+Proof. unfold close_abs, niscloseb, within_abs. rewrite !NumR.nabs_R. numR. apply Rleb_true. Qed.
 
 Lemma within_refl0 tol : 0 <= tol -> within tol 0 0.
 Proof. intros H. unfold within. rewrite Rminus_0_r, Rabs_R0. lra. Qed.
-Lemma within_zero tol x : within tol x 0 -> Rabs x <= tol.
-Proof. unfold within. rewrite Rminus_0_r, Rabs_R0. lra. Qed.
+Lemma within_zero tol x : within tol x 0 -> x = 0.
+Proof.
+  unfold within. rewrite Rminus_0_r, Rabs_R0, Rmult_0_r. intros H.
+  pose proof (Rabs_pos x). destruct (Req_dec x 0) as [E|E]; [auto|]. apply Rabs_pos_lt in E. lra.
+Qed.
 
 Lemma close_list_untab tol (l1 l2 : list R) :
   0 <= tol -> close_list tol l1 l2 = true -> forall i, within tol (untab l1 i) (untab l2 i).
@@ -76,12 +82,12 @@ Definition checked_ok (tol : Q) (bl : list Q) (a : nat)
         within t (lookup (nth o (mapQdd ed) []) ns) (bayes mr b a o ns) /\
         within t (untab (nth o (mapQ2 nag) []) ns) (bayes mr b a o ns)) /\
      (Zm mr b a o = 0 ->
-        Rabs (untab (nth o (mapQ2 ev) []) ns) <= t /\
+        untab (nth o (mapQ2 ev) []) ns = 0 /\
         nth o (mapQdd ed) [] = [] /\
-        Rabs (untab (nth o (mapQ2 nag) []) ns) <= t)) /\
+        untab (nth o (mapQ2 nag) []) ns = 0)) /\
   (forall o, (o < nO)%nat ->
      within t (untab (mapQ1 pv) o) (Zm mr b a o) /\ within t (lookup (mapQd pd) o) (Zm mr b a o)) /\
-  within t (Q2R rw)
+  within_abs t (Q2R rw)
          (sumf nS (fun s => sumf nS (fun ns => b s * MDP.P (base mr) s a ns * MDP.Rw (base mr) s a ns))).
 
 Theorem main_checked tol bl a ed ev nag pd pv bn rw c :
@@ -122,14 +128,14 @@ Proof.
       * rewrite <- E3. now apply close_list_untab.
     + intros Hz. destruct (Hzero Hz) as (E0 & Hv). destruct (Hv ns Hns) as (E1 & E3).
       repeat split.
-      * apply within_zero. rewrite <- E1. now apply close_list_untab.
+      * apply (within_zero t). rewrite <- E1. now apply close_list_untab.
       * rewrite E0 in D1. now apply close_dict_nil in D1.
-      * apply within_zero. rewrite <- E3. now apply close_list_untab.
+      * apply (within_zero t). rewrite <- E3. now apply close_list_untab.
   - intros o Ho. destruct (pred_obs_marginal mr Hwf b Hbel a Ha) as (Hm & _).
     destruct (Hm o Ho) as (E1 & E2 & _). split.
     + rewrite <- E1. now apply close_list_untab.
     + rewrite <- E2. now apply close_dict_lookup.
-  - apply close_R in H8. now rewrite belief_reward_expect in H8.
+  - apply close_abs_R in H8. now rewrite belief_reward_expect in H8.
 Qed.
 
 Theorem main_absorbing bl ia :
